@@ -30,6 +30,7 @@ def families(tier):
         {'name': 'A4', 'params': {'hist': 'BMB', 'kinds': ['is_dir'], 'roles': ['o'], 'targets': ['o/d/g'],
                                   'modes': ['ok', 'raise_after'], 'mut_paths': mp}, 'weight': 2},
     ]
+    q.append({'name': 'backups', 'params': {}, 'weight': 1})
     q.append({'name': 'A8b', 'params': {'hist': 'BMB', 'kinds': ['is_dir'], 'mut_paths': ['o/d/z', 'o/d/e/z', 'o/d/e']}, 'weight': 1})
     q.append({'name': 'S1', 'params': {'hist': 'F'}, 'weight': 1})
     q.append({'name': 'S1', 'params': {'hist': 'BMF', 'mut_paths': ['o/d', 'o/d/g', 'o/z']}, 'weight': 2})
@@ -46,4 +47,9 @@ def families(tier):
 
 
 def harness(eng, fam, P):
+    if fam == 'backups':
+        # overwritten foreign files are moved aside through FileBackups: at any backup index they must come back
+        from .c02 import backups_family
+        eng.witness('build-raised')
+        return backups_family(eng, P, 'C03')
     run_history(eng, fam, P, 'C03')
